@@ -369,6 +369,12 @@ def forced_backtrack_cases(rng, n):
             for fixed in (g, dd, ("un", ("proj", [k]), DEFAULT, dd), ("un", ("slice", 0, 1), DEFAULT, g),
                           ("un", ("sel", ("cmp", "ge", ("ref", k), ("lit", 0))), DEFAULT, ("un", ("proj", [k]), DEFAULT, dd))):
                 out.append(("join", None, True, True, ("un", ("dedup",), DEFAULT, ("xfer", mid_eng, leaf)), fixed))
+            # the fixed operand is the other engine's join identity: nothing to join, but a predicate still has to filter
+            ident = ("leaf", 3, src_eng, [], [{}], (1, 1), "identity")
+            for pred in (None, ("cmp", "ge", ("ref", k), ("lit", 1))):
+                for jt in (False, True):
+                    out.append(("join", pred, True, jt, ("xfer", mid_eng, leaf), ident))
+                    out.append(("join", pred, jt, True, ("un", ("calc", enc.K(5), ("add", ("ref", k), ("lit", 1))), DEFAULT, ("xfer", mid_eng, leaf)), ident))
     out += chain_backtrack_cases()
     for _ in range(n):
         cols = gen.gen_schema(rng, maxk=3, maxn=1, allow_empty=False)
